@@ -1,0 +1,13 @@
+//go:build verif
+
+// Contracts for the deductive verifier in /verif (comment-only: adds no declarations).
+package certgen
+
+//@ use net asn1 errors
+
+// ---- C10 / C11: the RFC 3779 address-block codec ---------------------------------------------------
+//@ func decodeIPV4AddressChoice
+//@   intmode math
+//@   nopanic @C10,C11
+//@   ensures ret1 == nil ==> 0 <= encodedBlock.BitLength && encodedBlock.BitLength <= 32      #C11.never-widen @C11
+//@   loop 1 (i int) invariant 0 <= i && i <= 4 && 8*(i-1) < encodedBlock.BitLength           #C11.decode-bound @C10,C11
